@@ -38,6 +38,8 @@ from concurrent.futures import ThreadPoolExecutor
 from vf import common, tlc, evidence
 
 PROP = "C18"
+# development on a loaded machine: VF_WORKERS caps the replay pool and the TLC workers (default 16)
+NW = max(1, int(os.environ.get("VF_WORKERS", "16") or 16))
 MODES = ("nullset", "nullglob", "nullfail")
 REACH_QUICK = ("ReachInadmissiblePath", "ReachNestedMatch")
 REACH_ALL = ("ReachTwoWitnesses", "ReachInadmissiblePath", "ReachGlobError", "ReachGlobEmptyOk",
@@ -295,14 +297,29 @@ class Evaluator:
                               [G.gid, case["q"], sorted(G.pstr(w) for w in wit - set(paths))[:4]])
 
 
-def modes_for(case, seed):
-    if not case["exp"]:
-        return MODES
-    h = sum(map(ord, case["q"])) + seed + int(case["g"])
-    return (MODES[h % 3],)
-
-
 ALL4 = (("tree", False), ("tree", True), ("pkg", False), ("pkg", True))
+
+
+def plan(case, seed):
+    """-> {temp: [(mode, api variants)]}.  Parsing dominates the cost of a predicate query (pyparsing
+    infix notation, ~15 ms), so predicate cases get two complementary variants cold and one warm;
+    plain cases get all four, cold and warm.  The query mode only matters for empty results: those
+    are evaluated in all three modes."""
+    h = sum(map(ord, case["q"])) + seed + int(case["g"])
+    primary = MODES[h % 3]
+    if case["pred"]:
+        cold = (("tree", True), ("pkg", False)) if h % 2 == 0 else (("tree", False), ("pkg", True))
+        warm = (ALL4[(h // 2) % 4],)
+    else:
+        cold = warm = ALL4
+    out = {"cold": [(primary, cold)], "warm": [(primary, warm)]}
+    if not case["exp"]:
+        for m in MODES:
+            if m != primary:
+                out["cold"].append((m, (ALL4[h % 4],)))
+                if not case["pred"]:
+                    out["warm"].append((m, (ALL4[(h + 1) % 4],)))
+    return out
 
 
 def run_cases(G, aliases, cases, seed, keep=False):
@@ -326,17 +343,16 @@ def run_cases(G, aliases, cases, seed, keep=False):
             first = pss[order[0]]
             if temp == "warm":
                 # vacuity: the warm graph must come from .bob-tree.sqlite3 without generating packages
-                list(first.queryTreePath("//*", True))
+                try:
+                    list(first.queryTreePath("//*", True))
+                except Exception:
+                    pass                  # judged by the cases below
                 if getattr(first, "_PackageSet__root", None) is None:
                     res["warm_ok"] = 1
             idmap = bind_graph(G, first.getRootPackage())
             ev = Evaluator(G, idmap, pss, temp)
             for c in cases:
-                for m in modes_for(c, seed):
-                    if temp == "cold" or not c["pred"]:
-                        variants = ALL4
-                    else:
-                        variants = (("tree", True), ("pkg", False))
+                for m, variants in plan(c, seed)[temp]:
                     ev.check(c, m, variants)
             res["evals"] += ev.evals
             res["problems"] += ev.problems
@@ -413,22 +429,24 @@ def case_features(cases, graphs):
 def run_tlc(quick):
     jobs = []
     if quick:
-        jobs.append(("PathQuery.cfg", dict(coverage=True, workers=14, timeout=900)))
+        jobs.append(("PathQuery.cfg", dict(coverage=True, workers=min(14, NW), timeout=9000)))
         reach = REACH_QUICK
     else:
-        jobs.append(("PathQuery_thorough.cfg", dict(coverage=True, workers=10, timeout=3000, heap="8g")))
-        jobs.append(("PathQuery_dags.cfg", dict(coverage=False, workers=6, timeout=3000)))
+        jobs.append(("PathQuery_thorough.cfg", dict(coverage=True, workers=min(10, NW), timeout=30000, heap="8g")))
+        jobs.append(("PathQuery_dags.cfg", dict(coverage=False, workers=min(6, NW), timeout=30000)))
         reach = REACH_ALL
     for r in reach:
-        jobs.append(("PathQuery_reach_%s.cfg" % r, dict(workers=1, timeout=900, heap="2g")))
-    with ThreadPoolExecutor(len(jobs)) as ex:
+        jobs.append(("PathQuery_reach_%s.cfg" % r, dict(workers=1, timeout=9000, heap="2g")))
+    with ThreadPoolExecutor(len(jobs) if NW >= 8 else 2) as ex:
         futs = [(cfg, ex.submit(tlc.run, "PathQuery", cfg, **kw)) for cfg, kw in jobs]
         return [(cfg, f.result()) for cfg, f in futs]
 
 
 def replay(path, rep):
     with open(path) as f:
-        d = json.load(f)["detail"]
+        j = json.load(f)
+    d = j["detail"]
+    rep.seed = j.get("seed", rep.seed)
     common.use_repo()
     import bob.input  # noqa: F401
     G = AGraph(d["graph_id"], d["graph"])
@@ -439,10 +457,11 @@ def replay(path, rep):
     for sig, det in sigs.items():
         rep.violation(sig, {"count": 1, "examples": [det], "graph_id": G.gid, "graph": d["graph"],
                             "aliases": d["aliases"], "cases": d["cases"]})
-    rep.traces = len(d["cases"])
-    rep.evaluations = r["evals"]
-    rep.level = "exploration"
-    return rep.finish()
+    # the evidence file of the last regular run is left alone
+    for sig, k in rep.known_hits.items():
+        print("KNOWN-FINDING: property=%s %s" % (PROP, k.get("what", sig)), flush=True)
+    print("%s replay: cases=%d evaluations=%d violations=%d" % (PROP, len(d["cases"]), r["evals"], len(rep.violations)), flush=True)
+    return 1 if rep.violations else 0
 
 
 def main():
@@ -482,7 +501,8 @@ def main():
         n = 0
         for p in res.printed:
             if "catalogue" in p:
-                for gid, gdef in p["catalogue"]["graphs"].items():
+                gs = p["catalogue"]["graphs"]       # ToJson: a function over 1..n is a list
+                for gid, gdef in (enumerate(gs, 1) if isinstance(gs, list) else gs.items()):
                     catalogue[int(gid)] = gdef
                 aliases = p["catalogue"]["aliases"]
             else:
@@ -511,6 +531,12 @@ def main():
     import bob.input  # noqa: F401  (import before fork)
     import bob.pathspec  # noqa: F401
     by_graph = {}
+    only = os.environ.get("VF_C18_GRAPHS")       # development only: replay just these graphs
+    if only:
+        keep = set(int(x) for x in only.split(","))
+        cases = [c for c in cases if c["g"] in keep]
+        rep.extra["DEVELOPMENT_ONLY_graph_filter"] = sorted(keep)
+        rep.level = "exploration"
     for c in cases:
         by_graph.setdefault(c["g"], []).append(c)
     tasks = []
@@ -526,7 +552,7 @@ def main():
     found = {}       # signature -> [count, examples]
     notes = {}
     warm_ok = 0
-    with mp.get_context("fork").Pool(16, initializer=_init_worker) as pool:
+    with mp.get_context("fork").Pool(NW, initializer=_init_worker) as pool:
         for r in pool.imap_unordered(task, tasks, chunksize=1):
             if "machinery" in r:
                 raise Machinery(r["machinery"])
